@@ -162,6 +162,7 @@ func workerMain(t *testing.T) {
 	st := &workerStats{Probes: map[string]int{}, Faults: map[string]int{}, Known: map[string]int{}}
 	sigs := map[uint64]bool{}
 	begin := time.Now()
+	lastStat := time.Now()
 	viols := 0
 	for j := start; j < maxRuns; j += wn {
 		if p.Fixed == nil && time.Since(begin) > budget {
@@ -175,7 +176,7 @@ func workerMain(t *testing.T) {
 		seed := runSeed(base, p.ID, j)
 		fmt.Fprintf(out, "{\"t\":\"run\",\"j\":%d}\n", j)
 		_ = out.Flush()
-		rc, v := Explore(t, p, seed, tier, false, nil)
+		rc, v := Explore(t, p, seed, tier, false, nil, j)
 		st.Runs++
 		for k, n := range rc.Stats.Probes {
 			st.Probes[k] += n
@@ -198,6 +199,15 @@ func workerMain(t *testing.T) {
 			}
 			b, _ := json.Marshal(map[string]interface{}{"seed": seed, "cfg": tr.Cfg, "parties": tr.Parties, "steps": stepStrings(tr.Steps), "sig": rc.Stats.Sig})
 			st.Samples = append(st.Samples, b)
+		}
+		if time.Since(lastStat) > 2*time.Second {
+			lastStat = time.Now()
+			st.Sigs = st.Sigs[:0]
+			for s := range sigs {
+				st.Sigs = append(st.Sigs, s)
+			}
+			sort.Slice(st.Sigs, func(a, b int) bool { return st.Sigs[a] < st.Sigs[b] })
+			emit(workerMsg{T: "stat", Stats: st})
 		}
 		if v != nil {
 			if v.Rule == "harness.panic" {
@@ -228,6 +238,7 @@ func workerMain(t *testing.T) {
 			emit(workerMsg{T: "viol", J: j, Seed: seed, Trace: tr})
 		}
 	}
+	st.Sigs = st.Sigs[:0]
 	for s := range sigs {
 		st.Sigs = append(st.Sigs, s)
 	}
@@ -344,7 +355,7 @@ func runnerMain(t *testing.T) {
 					fmt.Sprintf("VERIF_BUDGET_S=%d", left), fmt.Sprintf("VERIF_START=%d", startJ), "GOMAXPROCS=2")
 				so, _ := cmd.StdoutPipe()
 				var se strings.Builder
-				cmd.Stderr = &limitedWriter{w: &se, n: 1 << 16}
+				cmd.Stderr = &limitedWriter{w: &se, n: 1 << 20}
 				if err := cmd.Start(); err != nil {
 					mu.Lock()
 					harnessErr = true
@@ -354,6 +365,7 @@ func runnerMain(t *testing.T) {
 				sc := bufio.NewScanner(so)
 				sc.Buffer(make([]byte, 1<<20), 64<<20)
 				lastJ := -1
+				var latest *workerStats
 				done := false
 				hang := false
 				for sc.Scan() {
@@ -375,18 +387,25 @@ func runnerMain(t *testing.T) {
 					case "hang":
 						hang = true
 						lastJ = m.J
+					case "stat":
+						latest = m.Stats
 					case "done":
 						done = true
-						mu.Lock()
-						if results[i].stats == nil {
-							results[i].stats = m.Stats
-						} else {
-							mergeStats(results[i].stats, m.Stats)
-						}
-						mu.Unlock()
+						latest = m.Stats
 					}
 				}
 				err := cmd.Wait()
+				if latest != nil {
+					// cumulative statistics of this worker instance (also if it died later)
+					mu.Lock()
+					if results[i].stats == nil {
+						results[i].stats = latest
+					} else {
+						mergeStats(results[i].stats, latest)
+						results[i].stats.Sigs = append(results[i].stats.Sigs, latest.Sigs...)
+					}
+					mu.Unlock()
+				}
 				if done {
 					return
 				}
@@ -408,7 +427,7 @@ func runnerMain(t *testing.T) {
 				if hang {
 					results[i].hangs = append(results[i].hangs, lastJ)
 				}
-				results[i].fatals = append(results[i].fatals, fmt.Sprintf("%d\x00%s", lastJ, tail(se.String(), 3000)))
+				results[i].fatals = append(results[i].fatals, fmt.Sprintf("%d\x00%s", lastJ, headTail(se.String(), 1500, 2500)))
 				mu.Unlock()
 				if lastJ < 0 {
 					mu.Lock()
@@ -445,7 +464,7 @@ func runnerMain(t *testing.T) {
 			parts := strings.SplitN(f, "\x00", 2)
 			j, _ := strconv.Atoi(parts[0])
 			v := &Violation{Prop: pid, Rule: "fatal", Detail: parts[1], Shape: map[string]string{"kind": fatalKind(parts[1])}}
-			tr := &Trace{Prop: pid, Seed: runSeed(uint64(seed), pid, j), Tier: tier, Mode: "generate", Viol: v}
+			tr := &Trace{Prop: pid, Seed: runSeed(uint64(seed), pid, j), Tier: tier, Mode: "generate", Viol: v, J: j}
 			if !p.OwnsCrash {
 				total.IncPanics++
 				incidentalFatal++
@@ -583,6 +602,13 @@ func firstLine(s string) string {
 	return s
 }
 
+func headTail(s string, h, t int) string {
+	if len(s) <= h+t {
+		return s
+	}
+	return s[:h] + "\n[...]\n" + s[len(s)-t:]
+}
+
 func tail(s string, n int) string {
 	if len(s) > n {
 		return s[len(s)-n:]
@@ -653,7 +679,7 @@ func digestMain(t *testing.T) {
 	base := uint64(envInt("VERIF_SEED", 1))
 	n := envInt("VERIF_MAXRUNS", 8)
 	for j := 0; j < n; j++ {
-		rc, v := Explore(t, p, runSeed(base, p.ID, j), envStr("VERIF_TIER", "quick"), false, nil)
+		rc, v := Explore(t, p, runSeed(base, p.ID, j), envStr("VERIF_TIER", "quick"), false, nil, j)
 		r := ""
 		if v != nil {
 			r = v.ShapeKey()
